@@ -160,8 +160,26 @@ class FormulaParser(Parser):
         array : LBRACKET expseqsemicolon RBRACKET
               | LBRACKET expseqcomma RBRACKET
               | LBRACKET expseqbackslash RBRACKET
+              | LBRACKET expseqrows RBRACKET
         """
         p[0] = p[2]
+
+    def p_expseq_rows(self, p):
+        """
+        expseqrows : expseqcomma SEMICOLON expseqcomma SEMICOLON expseqcomma
+                   | expseqbackslash SEMICOLON expseqbackslash SEMICOLON expseqbackslash
+                   | expseqcomma SEMICOLON expseqcomma SEMICOLON
+                   | expseqbackslash SEMICOLON expseqbackslash SEMICOLON
+                   | expseqrows SEMICOLON expseqcomma
+                   | expseqrows SEMICOLON expseqbackslash
+        """
+        # an array of three and more rows (two rows are an expseqsemicolon)
+        if len(p) == 6:
+            p[0] = [p[1], p[3], p[5]]
+        elif len(p) == 5:  # two rows and a trailing separator: an empty slot, as in a flat array
+            p[0] = [p[1], p[3], None]
+        else:
+            p[0] = p[1] + [p[3]]
 
     def p_expseq_semicolon(self, p):
         """
